@@ -23,16 +23,17 @@ def levels(tier):
              "yield_frequencies": [2]},
         ]
     return [
-        {"name": "n1-wide", "shapes": [[1, 2, 2], [2, 2, 2]], "n": 1, "alphabet": alpha, "links_batch": 3, "batch_sources": 2, "batch_targets": 3,
+        {"name": "n1-wide", "shapes": [[1, 2, 2]], "n": 1, "alphabet": alpha, "links_batch": 3, "batch_sources": 2, "batch_targets": 2,
          "yield_frequencies": [50, 1]},
-        {"name": "recrawl-wide", "shapes": [[1, 2, 2], [2, 2, 2]], "n": 1, "prelude": [["batch", 0, [1, 2]]], "alphabet": ["batch"], "batch_sources": 2,
-         "batch_targets": 3, "yield_frequencies": [50, 1]},
+        {"name": "n1-2shapes", "shapes": [[2, 2, 2], [1, 2, 3]], "n": 1, "alphabet": alpha, "links_batch": 2, "batch_sources": 1, "batch_targets": 2},
+        {"name": "recrawl-wide", "shapes": [[1, 2, 2]], "n": 1, "prelude": [["batch", 0, [1, 2]]], "alphabet": ["batch"], "batch_sources": 2,
+         "batch_targets": 2, "yield_frequencies": [50, 1]},
         {"name": "recrawl3-wide", "shapes": [[1, 2, 2]], "n": 1, "prelude": [["page", 0, True]], "alphabet": ["batch"], "batch_sources": 3, "batch_targets": 2,
-         "yield_frequencies": [50, 1]},
-        {"name": "n2-wide", "shapes": [[1, 2, 2]], "n": 2, "alphabet": alpha, "links_batch": 2, "batch_sources": 1, "batch_targets": 2},
+         "yield_frequencies": [50]},
+        {"name": "n2-wide", "shapes": [[1, 2, 2]], "n": 2, "alphabet": ["links", "batch", "page"], "links_batch": 2, "batch_sources": 1, "batch_targets": 2},
         {"name": "recrawl-twice", "shapes": [[1, 2, 2]], "n": 1, "prelude": [["batch", 1, [0]], ["batch", 0, [2]]], "alphabet": ["batch"], "batch_sources": 2,
          "batch_targets": 2, "yield_frequencies": [50, 1]},
-        {"name": "n3", "shapes": [[1, 2, 2]], "n": 3, "alphabet": ["links", "batch", "page"], "links_batch": 1, "batch_sources": 1, "batch_targets": 1},
+        {"name": "n3", "shapes": [[1, 2, 2]], "n": 3, "alphabet": ["links", "batch"], "links_batch": 1, "batch_sources": 1, "batch_targets": 1},
     ]
 
 
